@@ -529,6 +529,7 @@ type Contract struct {
 	Trusted  string
 	Pure     bool
 	NoInline bool
+	Establishes bool // constructor: the package invariants are not assumed at entry, only proved at exit
 	Asserts  map[int][]Clause
 	After    map[string][]Clause // "callee#k" -> lemmas proved (then assumed) right after that call
 	Before   map[string][]Clause // "callee#k" -> assertions proved right before that call
@@ -560,6 +561,7 @@ type SpecSet struct {
 	Funcs     map[string]*SpecFunc
 	FuncOrder []string
 	Axioms    []*Axiom
+	Invariants map[string][]Clause // package path -> state invariants of the package's listener / parser state
 }
 
 func newSpecSet() *SpecSet {
@@ -567,7 +569,7 @@ func newSpecSet() *SpecSet {
 }
 
 var clauseKW = map[string]bool{"func": true, "method": true, "closure": true, "requires": true, "ensures": true, "modifies": true,
-	"decreases": true, "loop": true, "trusted": true, "pure": true, "noinline": true, "spec": true, "axiom": true, "lemma": true, "package": true, "assert": true}
+	"decreases": true, "loop": true, "trusted": true, "pure": true, "noinline": true, "spec": true, "axiom": true, "lemma": true, "package": true, "assert": true, "invariant": true, "establishes": true}
 
 // parseContractLines parses the "//@" lines of one file. pkgPath is the Go package whose scope resolves type names.
 func (ss *SpecSet) parseContractLines(lines []string, pkgPath, file string) error {
@@ -641,6 +643,16 @@ func (ss *SpecSet) parseContractLines(lines []string, pkgPath, file string) erro
 			ss.Funcs[f.Name] = f
 			ss.FuncOrder = append(ss.FuncOrder, f.Name)
 			cur = nil
+		case "invariant":
+			c, err := mk(rest)
+			if err != nil {
+				return err
+			}
+			if ss.Invariants == nil {
+				ss.Invariants = map[string][]Clause{}
+			}
+			ss.Invariants[pkgPath] = append(ss.Invariants[pkgPath], c)
+			cur = nil
 		case "axiom", "lemma":
 			name, body := rest, rest
 			if i := strings.Index(rest, ":"); i > 0 && !strings.ContainsAny(rest[:i], " (") {
@@ -694,6 +706,8 @@ func (ss *SpecSet) parseContractLines(lines []string, pkgPath, file string) erro
 				cur.Pure = true
 			case "noinline":
 				cur.NoInline = true
+			case "establishes":
+				cur.Establishes = true
 			case "loop", "assert":
 				f := strings.Fields(rest)
 				if kw == "assert" && len(f) >= 2 && f[0] == "return" {
